@@ -2,6 +2,9 @@
 // property states; see DESIGN.md section 5.
 #pragma once
 
+#include <string>
+#include <vector>
+
 #include "core/World.hh"
 #include "Problem.hh"
 #include "Recorder.hh"
@@ -39,4 +42,7 @@ namespace vsim
 {
 //! C17 tallies: SimpleCalo / ActionDiagnostic / StepDiagnostic vs history
 void check_tallies(History const& h, Problem const& prob, RunResult& out);
+//! Same for several streams sharing one Problem (histories in stream order)
+void check_tallies(std::vector<History const*> const& hs, Problem const& prob, RunResult& out,
+                   std::string const& property);
 }
